@@ -31,12 +31,13 @@ use crate::{
 // ---------------------------------------------------------------------------------------------------------------
 // (a) op histories, Ristretto (the instantiation that owns the process-wide cells)
 
-pub const OPS: [&str; 13] = [
+pub const OPS: [&str; 14] = [
     "params(2,1)",
     "params(2,2)",
     "params(4,1)",
     "proveA",
     "proveB",
+    "prove-bad-witness",
     "verify-valid",
     "verify-invalid",
     "seeded-recover",
@@ -126,6 +127,19 @@ fn run_op<P: G>(op: &str, kept: &mut Vec<RangeParameters<P>>) -> Vec<u8> {
             let built = build::<P>(&cfg, &wit).unwrap();
             let proof = lib_prove(&built, &CTX_A, &mut HRng::chacha(1)).unwrap();
             P::to_bytes(&proof)
+        },
+        "prove-bad-witness" => {
+            // the statement of proveA with a witness that does not open its commitment
+            let wit = Wit::default_for(&cfg_a);
+            let built = build::<P>(&cfg_a, &wit).unwrap();
+            let mut bad = wit.clone();
+            bad.blindings[0][0] += Scalar::ONE;
+            let witness = witness_for(&bad).unwrap();
+            let mut t = CTX_A.transcript();
+            match P::prove(&mut t, &built.statement, &witness, &mut HRng::chacha(1)) {
+                Ok(p) => [b"PROOF:".to_vec(), P::to_bytes(&p)].concat(),
+                Err(e) => format!("ERR:{}", crate::api::err_name(&e)).into_bytes(),
+            }
         },
         "verify-valid" | "verify-invalid" => {
             let wit = Wit::default_for(&cfg_b);
@@ -528,13 +542,26 @@ pub fn child_bodies(name: &str) -> Option<Vec<Body>> {
     })
 }
 
+/// Calls made sequentially after the racing threads of a first-use harness have finished ("no call observes state left
+/// behind by another"): every degree of the commitment generators, in an order that revisits the racing degrees
+pub fn child_probes(_name: &str) -> Vec<Body> {
+    [1usize, 6, 3, 1, 2]
+        .into_iter()
+        .map(|d| Box::new(move || pedersen_bytes(&create_pedersen_gens_with_extension_degree(ext(d)))) as Body)
+        .collect()
+}
+
+pub fn probe_expectations() -> Vec<Option<Vec<u8>>> {
+    [1usize, 6, 3, 1, 2].into_iter().map(|d| Some(pedersen_bytes(&ref_pedersen(d)))).collect()
+}
+
 /// Per-thread expected result from the reference derivation, where one exists
 pub fn expected_results(name: &str) -> Vec<Option<Vec<u8>>> {
     match name {
-        "gens-2" => vec![Some(pedersen_bytes(&ref_pedersen(6))), Some(pedersen_bytes(&ref_pedersen(1)))],
-        "gens-3" => vec![Some(pedersen_bytes(&ref_pedersen(6))), Some(pedersen_bytes(&ref_pedersen(1))), None],
-        "prove-verify" => vec![None, Some(b"OK\x00".to_vec())],
-        "prove-gens-verify" => vec![None, Some(pedersen_bytes(&ref_pedersen(3))), Some(b"OK\x00".to_vec())],
+        "gens-2" => [vec![Some(pedersen_bytes(&ref_pedersen(6))), Some(pedersen_bytes(&ref_pedersen(1)))], probe_expectations()].concat(),
+        "gens-3" => [vec![Some(pedersen_bytes(&ref_pedersen(6))), Some(pedersen_bytes(&ref_pedersen(1))), None], probe_expectations()].concat(),
+        "prove-verify" => [vec![None, Some(b"OK\x00".to_vec())], probe_expectations()].concat(),
+        "prove-gens-verify" => [vec![None, Some(pedersen_bytes(&ref_pedersen(3))), Some(b"OK\x00".to_vec())], probe_expectations()].concat(),
         _ => vec![],
     }
 }
@@ -586,7 +613,7 @@ fn source_scan() -> Value {
 }
 
 pub fn run(rep: &mut Report) {
-    rep.rule = "(a) every sequence over the 13-op alphabet {build params x3, prove A/B, verify valid/invalid, seeded recover, batch of two, batch abandoned at \
+    rep.rule = "(a) every sequence over the 14-op alphabet {build params x3, prove A/B, prove with a witness that does not open the commitment, verify valid/invalid, seeded recover, batch of two, batch abandoned at \
                 its second member (wrong round count / undecodable point), pedersen gens, drop-all} of length <= 3 (thorough 4), one fresh process per sequence, each op's serialised result against \
                 its result alone in a fresh process (and a second fresh process); (b) every pair (thorough: also triples) of ops {prove A, \
                 prove B, verify valid, verify invalid, clone+drop params, build other capacity} on threads sharing one parameter object, \
